@@ -171,7 +171,14 @@ func checkOnce(sc *Scenario) (string, onceInfo) {
 // genOnceScenario: chains whose holding windows span several heights (blocks without rates),
 // in the PEG-bank eras and in the modern one.
 func genOnceScenario(t *rapid.T, st *Stats) (*Scenario, string) {
-	switch rapid.IntRange(0, 3).Draw(t, "onceFamily") {
+	switch rapid.IntRange(0, 4).Draw(t, "onceFamily") {
+	case 4:
+		// conversions waiting while half of the blocks have no winners, running on to a snapshot height that
+		// may itself have none (from 2.0.2 on that block still borrows earlier rates for the staking payout)
+		// and one more block after it: each held conversion is still considered exactly once
+		cfg := DefaultCfg()
+		cfg.PConv, cfg.PGraded, cfg.CrossSnapshot = 60, 50, true
+		return GenModernScenario(t, cfg), "pending-over-unrated-snapshot"
 	case 0, 1:
 		sc, _ := GenBankScenario(t, st)
 		return sc, "peg-bank-eras"
